@@ -37,6 +37,9 @@ pub enum Head {
     /// `\ifodd <text>` / `\ifcase <text>` where the operand is written with a sign string (`--3`, `+-3`, `- 3`)
     IfOddText(&'static str),
     IfCaseText(&'static str),
+    /// `\ifnum a<k1 blanks>R<k2 blanks>b ` where the blanks are space tokens produced by expansion
+    /// (`\def\sp{ }`, `\def\e{}`): style 0 = k times `\sp`; style 1 = a literal space, `\e`, then k-1 times `\sp`
+    IfNumSpaced(i64, char, i64, u8, u8, u8),
     /// `\ifeof n` on a stream that was never opened (§501: true)
     IfEof(i64),
     /// a conditional the harness implements itself (`\ifht` true, `\ifhf` false), without operand
@@ -73,7 +76,7 @@ impl Variant {
             Head::IfTrue | Head::AliasTrue | Head::ActiveTrue | Head::TrueActiveFi | Head::IfEof(_) => true,
             Head::IfHarness(b) => b,
             Head::IfFalse | Head::FalseActiveFi => false,
-            Head::IfNum(a, r, b) => match r {
+            Head::IfNum(a, r, b) | Head::IfNumSpaced(a, r, b, ..) => match r {
                 '<' => a < b,
                 '>' => a > b,
                 _ => a == b,
@@ -140,6 +143,32 @@ impl Variant {
             Head::IfTrue | Head::TrueActiveFi => out.push(Tok::Cs("iftrue")),
             Head::IfFalse | Head::FalseActiveFi => out.push(Tok::Cs("iffalse")),
             Head::ActiveTrue => out.push(ACTIVE),
+            Head::IfNumSpaced(a, r, b, k1, k2, style) => {
+                let blanks = |k: u8, out: &mut Vec<Tok>| {
+                    if k == 0 {
+                        return;
+                    }
+                    if style == 0 {
+                        for _ in 0..k {
+                            out.push(Tok::Cs("sp"));
+                        }
+                    } else {
+                        out.push(SPACE);
+                        out.push(Tok::Cs("e"));
+                        for _ in 1..k {
+                            out.push(Tok::Cs("sp"));
+                        }
+                    }
+                };
+                out.push(Tok::Cs("ifnum"));
+                for c in a.to_string().chars() {
+                    out.push(Tok::Ch(c, 12));
+                }
+                blanks(k1, out);
+                out.push(Tok::Ch(r, 12));
+                blanks(k2, out);
+                Self::number(b, out);
+            }
             Head::IfEof(n) => {
                 out.push(Tok::Cs("ifeof"));
                 Self::number(n, out);
@@ -678,6 +707,8 @@ pub struct Events {
     pub marker_dropped_by_backup: bool,
     /// the token an `\expandafter` expanded was an active character
     pub xa_expands_active_char: bool,
+    /// largest number of space tokens skipped between the first operand of an \ifnum and its relation (§406)
+    pub blanks_before_relation: usize,
     pub expansions: usize,
     pub max_cond_depth: usize,
 }
@@ -880,13 +911,16 @@ impl<'a> Expander<'a> {
             Meaning::IfNum => {
                 // §503
                 let a = self.scan_int()?;
+                let mut blanks = 0usize;
                 let r = loop {
                     // §406 get the next non-blank non-call token
                     let (t, _) = self.get_x_token()?.ok_or(Stop::EndOfInput)?;
                     if !matches!(t, Tok::Ch(_, 10)) {
                         break t;
                     }
+                    blanks += 1;
                 };
+                self.events.blanks_before_relation = self.events.blanks_before_relation.max(blanks);
                 let r = match r {
                     Tok::Ch(c @ ('<' | '=' | '>'), 12) => c,
                     _ => return Err(Stop::BadNumber("Missing = inserted for \\ifnum")),
